@@ -418,84 +418,158 @@ theorem extractStep_decreases {ps ps' : List EProd} (h : extractStep ps = .chang
   obtain ⟨h3, _⟩ := extractStep_measure 0 1 0 h
   unfold canonMeasure optCount; omega
 
+/-- a property of production lists that every rewriting step preserves -/
+structure StepInv (J : List EProd → Prop) : Prop where
+  ext : ∀ a b, J a → extractStep a = .changed b → J b
+  sep : ∀ a b, J a → sepStep a = .changed b → J b
+  rep : ∀ ty a b, J a → repStep ty a = .changed b → J b
+  grp : ∀ a b, J a → groupStep a = .changed b → J b
+
+theorem StepInv.trivial : StepInv (fun _ => True) :=
+  ⟨fun _ _ _ _ => True.intro, fun _ _ _ _ => True.intro, fun _ _ _ _ _ => True.intro,
+   fun _ _ _ _ => True.intro⟩
+
 /-- **one pass** of `separate_alternatives ; eliminate_repetitions ; eliminate_options ;
     eliminate_groups` on an optional-free grammar ends with any fuel above the measure; if it
-    reports `modified`, the measure has strictly decreased. -/
+    reports `modified`, the measure has strictly decreased; if not, nothing was changed and no
+    step applies any more. -/
+theorem pass_terminates_inv {J : List EProd → Prop} (hJ : StepInv J) (ty : GType) {fuel : Nat}
+    {ps : List EProd} (hn : NoOpt ps) (hj : J ps) (hf : canonMeasure ps < fuel) :
+    ∃ ps' m, pass ty fuel ps = .ok (ps', m) ∧ NoOpt ps' ∧ J ps' ∧
+      canonMeasure ps' ≤ canonMeasure ps ∧ (m = true → canonMeasure ps' < canonMeasure ps) ∧
+      (m = false → ps' = ps ∧ sepStep ps = .unchanged ∧ repStep ty ps = .unchanged ∧
+        groupStep ps = .unchanged) := by
+  obtain ⟨ps1, m1, e1, ⟨n1, j1⟩, u1, r1⟩ := iterStep_terminates sepStep canonMeasure
+    (fun a => NoOpt a ∧ J a)
+    (fun a ha => by
+      rcases sepStep_cases a with h | ⟨b, h⟩
+      · exact .inl h
+      · exact .inr ⟨b, h, ⟨sepStep_noOpt h ha.1, hJ.sep a b ha.2 h⟩, sepStep_decreases h⟩)
+    fuel ps false ⟨hn, hj⟩ hf
+  have c1 : canonMeasure ps1 ≤ canonMeasure ps ∧
+      (m1 = true → canonMeasure ps1 < canonMeasure ps) ∧ (m1 = false → ps1 = ps) := by
+    rcases r1 with ⟨rfl, rfl⟩ | ⟨rfl, h⟩
+    · exact ⟨Nat.le_refl _, (fun h => by cases h), fun _ => rfl⟩
+    · exact ⟨by omega, fun _ => h, fun h => by cases h⟩
+  obtain ⟨ps2, m2, e2, ⟨n2, j2⟩, u2, r2⟩ := iterStep_terminates (repStep ty) canonMeasure
+    (fun a => NoOpt a ∧ J a)
+    (fun a ha => by
+      rcases repStep_cases ty a with h | ⟨b, h⟩
+      · exact .inl h
+      · exact .inr ⟨b, h, ⟨repStep_noOpt h ha.1, hJ.rep ty a b ha.2 h⟩, repStep_decreases h⟩)
+    fuel ps1 m1 ⟨n1, j1⟩ (by omega)
+  have c2 : canonMeasure ps2 ≤ canonMeasure ps ∧
+      (m2 = true → canonMeasure ps2 < canonMeasure ps) ∧
+      (m2 = false → ps2 = ps ∧ ps1 = ps) := by
+    rcases r2 with ⟨rfl, rfl⟩ | ⟨rfl, h⟩
+    · exact ⟨c1.1, c1.2.1, fun h => ⟨c1.2.2 h, c1.2.2 h⟩⟩
+    · exact ⟨by omega, fun _ => by omega, fun h => by cases h⟩
+  obtain ⟨ps3, m3, e3, ⟨n3, j3⟩, _, r3⟩ := iterStep_terminates optStep canonMeasure
+    (fun a => NoOpt a ∧ J a)
+    (fun a ha => .inl (optStep_noOpt ha.1)) fuel ps2 m2 ⟨n2, j2⟩ (by omega)
+  have c3 : canonMeasure ps3 ≤ canonMeasure ps ∧
+      (m3 = true → canonMeasure ps3 < canonMeasure ps) ∧
+      (m3 = false → ps3 = ps ∧ ps2 = ps ∧ ps1 = ps) := by
+    rcases r3 with ⟨rfl, rfl⟩ | ⟨rfl, h⟩
+    · exact ⟨c2.1, c2.2.1, fun h => ⟨(c2.2.2 h).1, c2.2.2 h⟩⟩
+    · exact ⟨by omega, fun _ => by omega, fun h => by cases h⟩
+  obtain ⟨ps4, m4, e4, ⟨n4, j4⟩, u4, r4⟩ := iterStep_terminates groupStep canonMeasure
+    (fun a => NoOpt a ∧ J a)
+    (fun a ha => by
+      rcases groupStep_cases a with h | ⟨b, h⟩
+      · exact .inl h
+      · exact .inr ⟨b, h, ⟨groupStep_noOpt h ha.1, hJ.grp a b ha.2 h⟩, groupStep_decreases h⟩)
+    fuel ps3 m3 ⟨n3, j3⟩ (by omega)
+  have c4 : canonMeasure ps4 ≤ canonMeasure ps ∧
+      (m4 = true → canonMeasure ps4 < canonMeasure ps) ∧
+      (m4 = false → ps4 = ps ∧ ps3 = ps ∧ ps2 = ps ∧ ps1 = ps) := by
+    rcases r4 with ⟨rfl, rfl⟩ | ⟨rfl, h⟩
+    · exact ⟨c3.1, c3.2.1, fun h => ⟨(c3.2.2 h).1, c3.2.2 h⟩⟩
+    · exact ⟨by omega, fun _ => by omega, fun h => by cases h⟩
+  refine ⟨ps4, m4, ?_, n4, j4, c4.1, c4.2.1, ?_⟩
+  · unfold pass
+    simp only [e1, CRes.bind, e2, e3, e4]
+  · intro hm
+    obtain ⟨h4, h3, h2, h1⟩ := c4.2.2 hm
+    refine ⟨h4, ?_, ?_, ?_⟩
+    · rw [← h1]; exact u1
+    · rw [← h2]; exact u2
+    · rw [← h4]; exact u4
+
 theorem pass_terminates (ty : GType) {fuel : Nat} {ps : List EProd} (hn : NoOpt ps)
     (hf : canonMeasure ps < fuel) :
     ∃ ps' m, pass ty fuel ps = .ok (ps', m) ∧ NoOpt ps' ∧ canonMeasure ps' ≤ canonMeasure ps ∧
       (m = true → canonMeasure ps' < canonMeasure ps) := by
-  obtain ⟨ps1, m1, e1, n1, _, r1⟩ := iterStep_terminates sepStep canonMeasure NoOpt
-    (fun a ha => by
-      rcases sepStep_cases a with h | ⟨b, h⟩
-      · exact .inl h
-      · exact .inr ⟨b, h, sepStep_noOpt h ha, sepStep_decreases h⟩) fuel ps false hn hf
-  have c1 : canonMeasure ps1 ≤ canonMeasure ps ∧ (m1 = true → canonMeasure ps1 < canonMeasure ps) := by
-    rcases r1 with ⟨rfl, rfl⟩ | ⟨rfl, h⟩
-    · exact ⟨Nat.le_refl _, fun h => by cases h⟩
-    · exact ⟨by omega, fun _ => h⟩
-  obtain ⟨ps2, m2, e2, n2, _, r2⟩ := iterStep_terminates (repStep ty) canonMeasure NoOpt
-    (fun a ha => by
-      rcases repStep_cases ty a with h | ⟨b, h⟩
-      · exact .inl h
-      · exact .inr ⟨b, h, repStep_noOpt h ha, repStep_decreases h⟩) fuel ps1 m1 n1 (by omega)
-  have c2 : canonMeasure ps2 ≤ canonMeasure ps ∧ (m2 = true → canonMeasure ps2 < canonMeasure ps) := by
-    rcases r2 with ⟨rfl, rfl⟩ | ⟨rfl, h⟩
-    · exact c1
-    · exact ⟨by omega, fun _ => by omega⟩
-  obtain ⟨ps3, m3, e3, n3, _, r3⟩ := iterStep_terminates optStep canonMeasure NoOpt
-    (fun a ha => .inl (optStep_noOpt ha)) fuel ps2 m2 n2 (by omega)
-  have c3 : canonMeasure ps3 ≤ canonMeasure ps ∧ (m3 = true → canonMeasure ps3 < canonMeasure ps) := by
-    rcases r3 with ⟨rfl, rfl⟩ | ⟨rfl, h⟩
-    · exact c2
-    · exact ⟨by omega, fun _ => by omega⟩
-  obtain ⟨ps4, m4, e4, n4, _, r4⟩ := iterStep_terminates groupStep canonMeasure NoOpt
-    (fun a ha => by
-      rcases groupStep_cases a with h | ⟨b, h⟩
-      · exact .inl h
-      · exact .inr ⟨b, h, groupStep_noOpt h ha, groupStep_decreases h⟩) fuel ps3 m3 n3 (by omega)
-  have c4 : canonMeasure ps4 ≤ canonMeasure ps ∧ (m4 = true → canonMeasure ps4 < canonMeasure ps) := by
-    rcases r4 with ⟨rfl, rfl⟩ | ⟨rfl, h⟩
-    · exact c3
-    · exact ⟨by omega, fun _ => by omega⟩
-  refine ⟨ps4, m4, ?_, n4, c4.1, c4.2⟩
-  unfold pass
-  simp only [e1, CRes.bind, e2, e3, e4]
+  obtain ⟨ps', m, e, n, _, h1, h2, _⟩ := pass_terminates_inv StepInv.trivial ty hn True.intro hf
+  exact ⟨ps', m, e, n, h1, h2⟩
 
-/-- the outer loop `while operand.modified` ends within `measure + 1` passes -/
-theorem passLoop_terminates (ty : GType) {fuel : Nat} : ∀ (n : Nat) (ps : List EProd), NoOpt ps →
-    canonMeasure ps < fuel → canonMeasure ps < n → ∃ ps', passLoop ty fuel n ps = .ok ps'
-  | 0, _, _, _, h => absurd h (Nat.not_lt_zero _)
-  | n+1, ps, hn, hf, hlt => by
-    obtain ⟨ps1, m, e, n1, hle, hm⟩ := pass_terminates ty hn hf
+/-- the outer loop `while operand.modified` ends within `measure + 1` passes, in a state where no
+    step applies -/
+theorem passLoop_terminates_inv {J : List EProd → Prop} (hJ : StepInv J) (ty : GType)
+    {fuel : Nat} : ∀ (n : Nat) (ps : List EProd), NoOpt ps → J ps →
+    canonMeasure ps < fuel → canonMeasure ps < n →
+      ∃ ps', passLoop ty fuel n ps = .ok ps' ∧ NoOpt ps' ∧ J ps' ∧ sepStep ps' = .unchanged ∧
+        repStep ty ps' = .unchanged ∧ groupStep ps' = .unchanged
+  | 0, _, _, _, _, h => absurd h (Nat.not_lt_zero _)
+  | n+1, ps, hn, hj, hf, hlt => by
+    obtain ⟨ps1, m, e, n1, j1, hle, hm, hx⟩ := pass_terminates_inv hJ ty hn hj hf
     cases m with
-    | false => exact ⟨ps1, by simp [passLoop, e]⟩
+    | false =>
+      obtain ⟨rfl, x1, x2, x3⟩ := hx rfl
+      exact ⟨ps1, by simp [passLoop, e], n1, j1, x1, x2, x3⟩
     | true =>
       have := hm rfl
-      obtain ⟨ps2, e2⟩ := passLoop_terminates ty (fuel := fuel) n ps1 n1 (by omega) (by omega)
-      exact ⟨ps2, by simp [passLoop, e, e2]⟩
+      obtain ⟨ps2, e2, r⟩ :=
+        passLoop_terminates_inv hJ ty (fuel := fuel) n ps1 n1 j1 (by omega) (by omega)
+      exact ⟨ps2, by simp [passLoop, e, e2], r⟩
+
+theorem passLoop_terminates (ty : GType) {fuel : Nat} (n : Nat) (ps : List EProd) (hn : NoOpt ps)
+    (hf : canonMeasure ps < fuel) (hlt : canonMeasure ps < n) :
+    ∃ ps', passLoop ty fuel n ps = .ok ps' := by
+  obtain ⟨ps', e, _⟩ := passLoop_terminates_inv StepInv.trivial ty n ps hn True.intro hf hlt
+  exact ⟨ps', e⟩
 
 /-- the `extract_options` loop ends within `optCount + 1` steps, leaves no optional and does not
     raise the measure -/
-theorem extract_terminates {fuel : Nat} (ps : List EProd) (hf : optCount ps < fuel) :
-    ∃ ps' m', iterStep extractStep fuel ps false = .ok (ps', m') ∧ NoOpt ps' ∧
+theorem extract_terminates_inv {J : List EProd → Prop} (hJ : StepInv J) {fuel : Nat}
+    (ps : List EProd) (hj : J ps) (hf : optCount ps < fuel) :
+    ∃ ps' m', iterStep extractStep fuel ps false = .ok (ps', m') ∧ NoOpt ps' ∧ J ps' ∧
       canonMeasure ps' ≤ canonMeasure ps := by
-  obtain ⟨ps', m', e, hi, hu, _⟩ := iterStep_terminates extractStep optCount
-    (fun a => canonMeasure a ≤ canonMeasure ps)
+  obtain ⟨ps', m', e, ⟨hi, j'⟩, hu, _⟩ := iterStep_terminates extractStep optCount
+    (fun a => canonMeasure a ≤ canonMeasure ps ∧ J a)
     (fun a ha => by
       rcases extractInProds_cases (variableNames a) a with h | ⟨b, h⟩
       · exact .inl h
       · have := extractStep_decreases (ps := a) h
-        exact .inr ⟨b, h, by omega, this.1⟩) fuel ps false (Nat.le_refl _) hf
-  exact ⟨ps', m', e, extractInProds_unchanged _ _ hu, hi⟩
+        exact .inr ⟨b, h, ⟨by omega, hJ.ext a b ha.2 h⟩, this.1⟩)
+    fuel ps false ⟨Nat.le_refl _, hj⟩ hf
+  exact ⟨ps', m', e, extractInProds_unchanged _ _ hu, j', hi⟩
+
+theorem extract_terminates {fuel : Nat} (ps : List EProd) (hf : optCount ps < fuel) :
+    ∃ ps' m', iterStep extractStep fuel ps false = .ok (ps', m') ∧ NoOpt ps' ∧
+      canonMeasure ps' ≤ canonMeasure ps := by
+  obtain ⟨ps', m', e, n, _, h⟩ := extract_terminates_inv StepInv.trivial ps True.intro hf
+  exact ⟨ps', m', e, n, h⟩
+
+/-- the state in which `finalize` is called: reached with fuel above the measure, optional-free,
+    satisfying every step invariant the input satisfied, and no step applies -/
+theorem canon_reaches_finalize {J : List EProd → Prop} (hJ : StepInv J) (ty : GType)
+    (ps : List EProd) (hj : J ps) (fuel : Nat) (hf : canonMeasure ps < fuel) :
+    ∃ ps0 m0 ps1, iterStep extractStep fuel ps false = .ok (ps0, m0) ∧
+      passLoop ty fuel fuel ps0 = .ok ps1 ∧ NoOpt ps1 ∧ J ps1 ∧ sepStep ps1 = .unchanged ∧
+      repStep ty ps1 = .unchanged ∧ groupStep ps1 = .unchanged := by
+  have hopt := optCount_le_canonMeasure ps
+  obtain ⟨ps0, m0, e0, n0, j0, hle⟩ := extract_terminates_inv hJ (fuel := fuel) ps hj (by omega)
+  obtain ⟨ps1, e1, r⟩ :=
+    passLoop_terminates_inv hJ ty (fuel := fuel) fuel ps0 n0 j0 (by omega) (by omega)
+  exact ⟨ps0, m0, ps1, e0, e1, r⟩
 
 /-- **`transform_productions` never runs out of fuel above the measure, and never panics** -/
 theorem canon_terminates_core (ty : GType) (ps : List EProd) (fuel : Nat)
     (hf : canonMeasure ps < fuel) :
     (∃ B, canon ty fuel ps = .ok B) ∨ canon ty fuel ps = .finalizeError := by
-  have hopt := optCount_le_canonMeasure ps
-  obtain ⟨ps0, m0, e0, n0, hle⟩ := extract_terminates (fuel := fuel) ps (by omega)
-  obtain ⟨ps1, e1⟩ := passLoop_terminates ty (fuel := fuel) fuel ps0 n0 (by omega) (by omega)
+  obtain ⟨ps0, m0, ps1, e0, e1, _⟩ :=
+    canon_reaches_finalize StepInv.trivial ty ps True.intro fuel hf
   unfold canon
   simp only [e0, e1]
   cases finalize ps1 with
